@@ -13,6 +13,15 @@ from .interp import *
 class BuiltinMixin:
     def call_builtin(self, st: State, b: Builtin, args, kwargs, node=None):
         name = b.name
+        if name == "ext:collections.defaultdict":
+            return self.bi_defaultdict(st, args)
+        if name == "ddlist.append":
+            dl = b.self_val
+            o = st.obj(dl.ref)
+            m = o.fields[dl.field].e
+            x = self.to_dyn(st, args[0])
+            o.fields[dl.field] = Z(T("smap"), z3.Store(m, dl.key.e, z3.Concat(z3.Select(m, dl.key.e), z3.Unit(x))))
+            return NONE
         if name == "ext:math.ceil":
             v = args[0]
             if isinstance(v, Z) and v.t.kind == "real":
@@ -95,6 +104,28 @@ class BuiltinMixin:
         if len(a) == 2:
             return RangeVal(self.as_int(st, a[0]), self.as_int(st, a[1]))
         raise OutsideSubset("range with step")
+
+    def bi_defaultdict(self, st, args):
+        """collections.defaultdict(lambda: {"k1": list(), "k2": list(), ...}): a map from strings to records of lists.
+        Model: the insertion-ordered key list plus, per record field, a map str -> list of values (empty by default)."""
+        if len(args) != 1:
+            raise OutsideSubset("defaultdict() without a factory")
+        tmpl = self.force(st, self.call(st, args[0], [], {}))
+        if not (isinstance(tmpl, HeapRef) and st.obj(tmpl).kind == "dict"):
+            raise OutsideSubset("defaultdict factory that does not build a record of lists")
+        fields = {"keys": Z(T("seq", (T("str"),)), z3.Empty(z3.SeqSort(Str)))}
+        for k, v in st.obj(tmpl).items.items():
+            vv = self.force(st, v)
+            if not (isinstance(k, str) and isinstance(vv, HeapRef) and st.obj(vv).kind == "list" and not st.obj(vv).items):
+                raise OutsideSubset("defaultdict factory that does not build a record of empty lists")
+            fields[k] = Z(T("smap"), z3.K(Str, z3.Empty(z3.SeqSort(Dyn))))
+        o = HeapObj("obj", "defaultdict", fields)
+        o.dd_fields = [k for k in fields if k != "keys"]
+        return st.alloc(o)
+
+    def dd_seq(self, st, dl):
+        o = st.obj(dl.ref)
+        return Z(T("seq", (T("dyn"),)), z3.Select(o.fields[dl.field].e, dl.key.e))
 
     def bi_int(self, st, a, k):
         v = a[0] if st.spec else self.force(st, a[0])
